@@ -7,7 +7,7 @@ EXPLANATION = (
     "num_running <= size; at every quiet idle state is_full == (num_running == size)."
 )
 ASSUMPTIONS = ["bounds: pool size in {0,1,2,3,inf}, <= 3 concurrent requests, <= 7 tasks; the size is never re-assigned (C15 does that)"]
-BUDGET = {"quick": 150, "thorough": 2400}
+BUDGET = {"quick": 150, "thorough": 900}
 MON = ["C01"]
 
 
